@@ -161,7 +161,7 @@ def ray_rounded(V, cen, r, th, L):
 
 
 def angle_alphabet(V, cen):
-    ang = [k * math.pi / 12 for k in range(-48, 49)]
+    ang = [k * math.pi / 12 for k in range(-48, 49)] + [float(k) for k in range(-7, 8)]  # whole radians too (see input forms below)
     special = []
     if V is not None:
         for v in V:
@@ -254,5 +254,24 @@ def run_case(case):
             modes.setdefault(m, i)
         for m, i in modes.items():
             rep.violation("radial", label, "distance_to_surface", m, case, "theta=%r: got %r, exact radial distance %r (|err|=%.3g > %.3g); %d of %d angles wrong" % (float(angles[i]), float(got[i]), float(want[i]), float(err[i]), tol, len(bad), len(angles)), expected=float(want[i]), got=float(got[i]))
+    # input forms: "every array of angles" - whole radians given as int64 / int32 arrays and as a list of Python ints must
+    # give what the same angles give as floats (pinned against the exact distance above)
+    whole = np.arange(-7, 8)
+    try:
+        ref = np.asarray(obj.distance_to_surface(whole.astype(float)), float)
+        forms = {"int64-array": whole.astype(np.int64), "int32-array": whole.astype(np.int32), "list-of-int": [int(k) for k in whole]}
+        for fname, arr in forms.items():
+            rep.transitions += 1
+            try:
+                g = np.asarray(obj.distance_to_surface(arr), float)
+            except Exception as ex:
+                rep.violation("radial", label, "distance_to_surface", "input-form-raised:" + fname, case, "angles as %s: raised %r" % (fname, ex))
+                continue
+            if g.shape == ref.shape and np.all(np.abs(g - ref) <= tol):
+                rep.ok("input-form:" + fname)
+            else:
+                rep.violation("radial", label, "distance_to_surface", "input-form-differs:" + fname, case, "angles %s as %s give %s, as float64 %s" % (whole.tolist()[:4], fname, g.tolist()[:4], ref.tolist()[:4]))
+    except Exception as ex:
+        rep.violation("radial", label, "distance_to_surface", "raised:" + type(ex).__name__, case, "distance_to_surface(whole radians) raised %r" % (ex,))
     rep.sample({"case": case, "angles": int(len(angles))})
     return rep
